@@ -25,6 +25,8 @@ REAL = ["msdm.core.mdp.policy (Policy.run_on, evaluate_on, calc_returns, Functio
 STUB = ["table MDP/POMDP behind msdm's model interface", "generator argument (SimRandom)", "trajectory validator and book-keeping recomputation"]
 ASSUMPTIONS = ["belief-tracking policies are started with a belief whose support contains the start state",
                "either visit-counting convention for the closing state of a roll-out is accepted"]
+from sim.models import SEAM_RANGES  # noqa: E402
+ASSUMPTIONS = ASSUMPTIONS + [SEAM_RANGES]
 
 
 def _size(rng):
